@@ -243,9 +243,22 @@ fn gen_body(r: &mut Rng, sc: &mut Scope, depth: usize, budget: &mut usize, calle
                     for (pn, _pt, is_content) in &callee.params {
                         if *is_content {
                             // a block: empty, comment only, or further directives and calls
-                            let body = match r.below(5) {
+                            let body = match r.below(7) {
                                 0 => vec![],
                                 1 => vec![Node::Comment(b" only a comment ".to_vec())],
+                                2 => {
+                                    // a block that is nothing but one directive whose first body is empty or
+                                    // comment-only, with the content in its else branch
+                                    let (cond, binds) = gen_cond(r, sc);
+                                    let thn = if r.chance(1, 2) { vec![] } else { vec![Node::Comment(b" nothing ".to_vec())] };
+                                    let _ = binds;
+                                    let els = gen_body(r, sc, depth.saturating_sub(1), budget, &callees[ci + 1..]);
+                                    vec![Node::If { cond, body: thn, els: Else::Block(if els.is_empty() { vec![Node::Text(b"else-part".to_vec())] } else { els }) }]
+                                }
+                                3 => {
+                                    // only directives with empty bodies
+                                    vec![Node::For { pat: Pat::Name("x".into()), iter: "xs".into(), body: vec![] }, Node::If { cond: gen_cond(r, sc).0, body: vec![], els: Else::None }]
+                                }
                                 _ => gen_body(r, sc, depth.saturating_sub(1), budget, &callees[ci + 1..]),
                             };
                             args.push(Arg::Body(body));
